@@ -398,14 +398,32 @@ pub fn run_case(c: &BkCase, stats: &mut Stats) -> Result<(), (String, String)> {
     // --- a killed bank is permanently shut: no admin action may revive it
     if killed {
         stats.terminal_checked = true;
-        for st in [BankOperationalState::Operational, BankOperationalState::Paused, BankOperationalState::ReduceOnly] {
-            let mut vm = post.clone();
-            let mut o = BankConfigOpt::default();
-            o.operational_state = Some(st);
-            let _ = vm.exec(&w.ix_configure_bank(target_bank, o, w.roles.admin));
-            let b = read_bank(&vm, &tkey);
-            if b.config.operational_state != BankOperationalState::KilledByBankruptcy {
-                return Err(("bankruptcy:killed-bank-revived".into(), format!("configure_bank(operational_state = {:?}) took a bank out of KilledByBankruptcy", st)));
+        // ... neither directly nor on the frozen-settings path (the admin freezes the bank's settings first: a frozen
+        // bank's configure requests take another code path), nor with the state change bundled with other fields
+        for freeze_first in [false, true] {
+            for st in [BankOperationalState::Operational, BankOperationalState::Paused, BankOperationalState::ReduceOnly] {
+                for bundled in [false, true] {
+                    let mut vm = post.clone();
+                    if freeze_first {
+                        let mut f = BankConfigOpt::default();
+                        f.freeze_settings = Some(true);
+                        let _ = vm.exec(&w.ix_configure_bank(target_bank, f, w.roles.admin));
+                    }
+                    let mut o = BankConfigOpt::default();
+                    o.operational_state = Some(st);
+                    if bundled {
+                        o.deposit_limit = Some(u64::MAX / 2);
+                        o.borrow_limit = Some(u64::MAX / 2);
+                    }
+                    let _ = vm.exec(&w.ix_configure_bank(target_bank, o, w.roles.admin));
+                    let b = read_bank(&vm, &tkey);
+                    if b.config.operational_state != BankOperationalState::KilledByBankruptcy {
+                        return Err((
+                            "bankruptcy:killed-bank-revived".into(),
+                            format!("configure_bank(operational_state = {:?}{}) took a {}bank out of KilledByBankruptcy", st, if bundled { ", limits" } else { "" }, if freeze_first { "settings-frozen " } else { "" }),
+                        ));
+                    }
+                }
             }
         }
         // and it accepts no deposit
